@@ -117,7 +117,7 @@ pub fn check(case: &Case, env: &mut CaseEnv) -> Result<(), Failure> {
         env.classes(gq.labels.iter().cloned());
         let mut excluded = false;
         for id in kf_shape(gq, t, &case.layout) {
-            if env.kf_active(id) {
+            if env.kf_active(id) && !env.replay {
                 env.excluded(id);
                 excluded = true;
             }
@@ -130,7 +130,7 @@ pub fn check(case: &Case, env: &mut CaseEnv) -> Result<(), Failure> {
         // connective ever sees a NULL operand are judged by the property as written; the others are counted
         // as excluded and only checked for crashes, hangs and non-decline errors.
         let mut unjudged = false;
-        if env.kf_active("KF-connective-null") && eval::null_reaches_connective(&gq.q.filter, &rows) {
+        if env.kf_active("KF-connective-null") && !env.replay && eval::null_reaches_connective(&gq.q.filter, &rows) {
             env.excluded("KF-connective-null");
             unjudged = true;
         }
